@@ -616,6 +616,44 @@ def call_api(assoc, case, log, tmpdir):
     return out
 
 
+WATCHDOG = 25.0
+
+
+def requestor_actions(assoc, case, log, tmpdir, echo_id, watchdog):
+    """The requestor's user thread: the send_* call under test, the follow-up C-ECHO, the release - bounded by a watchdog
+    (a case must never block: e.g. a generator of the code under test that yields while holding the association lock)."""
+    out = {"outcome": {"results": [], "raised": None}, "echo_ok": False, "echo_err": None, "blocked": None}
+    done = threading.Event()
+
+    def run():
+        try:
+            out["outcome"] = call_api(assoc, case, log, tmpdir)
+            time.sleep(0.005)
+            try:
+                st = assoc.send_c_echo(msg_id=echo_id)
+                out["echo_ok"] = getattr(st, "Status", None) == 0x0000
+            except Exception as exc:
+                out["echo_err"] = "%s: %s" % (type(exc).__name__, str(exc)[:100])
+            try:
+                if assoc.is_established:
+                    assoc.release()
+            except Exception:
+                pass
+        finally:
+            done.set()
+
+    th = threading.Thread(target=run, daemon=True, name="c16-user")
+    th.start()
+    if not done.wait(watchdog):
+        out["blocked"] = taps.stack_of(th)[-4:]
+        try:
+            assoc._kill = True
+            assoc.dul.kill_dul()
+        except Exception:
+            pass
+    return out
+
+
 def proxies_by_role(main_req):
     """{'requestor': proxy, 'acceptor': proxy, 'move-scu': [...], 'move-dest': [...]}"""
     out = {"requestor": None, "acceptor": None, "move-scu": [], "move-dest": []}
@@ -666,21 +704,10 @@ def run_pair_once(case, counters, dimse_timeout):
                                  evt_handlers=[(evt.EVT_C_STORE, h_store_scu)])
         if not assoc.is_established:
             return dict(viol=[], inconclusive="association not established", sample={}, nontrivial=False, sigs=[])
-        outcome = call_api(assoc, case, log, tmpdir)
         echo_id = (case.get("msg_id", 7) + 101) % 65535 + 1
-        echo_ok, echo_err = False, None
-        time.sleep(0.005)
-        try:
-            st = assoc.send_c_echo(msg_id=echo_id)
-            echo_ok = getattr(st, "Status", None) == 0x0000
-        except Exception as exc:
-            echo_err = "%s: %s" % (type(exc).__name__, str(exc)[:100])
-        try:
-            if assoc.is_established:
-                assoc.release()
-        except Exception:
-            pass
-        harness.wait_for(lambda: not assoc.is_alive(), 3.0)
+        ua = requestor_actions(assoc, case, log, tmpdir, echo_id, WATCHDOG)
+        outcome, echo_ok, echo_err, blocked = ua["outcome"], ua["echo_ok"], ua["echo_err"], ua["blocked"]
+        harness.wait_for(lambda: not assoc.is_alive(), 3.0 if not blocked else 0.2)
         taps.wait_quiet(3.0)
         roles = proxies_by_role(assoc)
         streams = {}
@@ -722,6 +749,11 @@ def run_pair_once(case, counters, dimse_timeout):
                   echo_ok=echo_ok, handler=log.handler[:8],
                   wire={k: [(s["name"], s["mid"], s["status"], s["cdst"], s["cfrags"], s["dfrags"], s["dlen"]) for s in v][:10]
                         for k, v in msgs.items()})
+    if blocked:
+        sample["blocked"] = blocked
+        bump(counters, "user_thread_blocked")
+        return dict(viol=viol, inconclusive=(None if viol else "requestor user thread blocked > %.0f s at %r" % (WATCHDOG, blocked)),
+                    sample=sample, nontrivial=bool(viol), sigs=sigs, wire_clean=wire_clean)
 
     # ---- inputs the public API rejects before anything is sent: skipped and counted
     if not sent_main:
@@ -952,21 +984,10 @@ def run_peer_acc(case, counters, attempt=0):
             stop.set()
             return dict(viol=[], inconclusive="association with the scripted acceptor not established (%r)" % rec.get("error"),
                         sample={}, nontrivial=False, sigs=[])
-        outcome = call_api(assoc, case, log, tmpdir)
         echo_id = (case.get("msg_id", 7) + 101) % 65535 + 1
-        echo_ok, echo_err = False, None
-        time.sleep(0.005)
-        try:
-            st = assoc.send_c_echo(msg_id=echo_id)
-            echo_ok = getattr(st, "Status", None) == 0x0000
-        except Exception as exc:
-            echo_err = "%s: %s" % (type(exc).__name__, str(exc)[:100])
-        try:
-            if assoc.is_established:
-                assoc.release()
-        except Exception:
-            pass
-        harness.wait_for(lambda: not assoc.is_alive(), 3.0)
+        ua = requestor_actions(assoc, case, log, tmpdir, echo_id, WATCHDOG)
+        outcome, echo_ok, echo_err, blocked = ua["outcome"], ua["echo_ok"], ua["echo_err"], ua["blocked"]
+        harness.wait_for(lambda: not assoc.is_alive(), 3.0 if not blocked else 0.2)
         stop.set()
         th.join(6.0)
         taps.wait_quiet(3.0)
@@ -991,6 +1012,11 @@ def run_peer_acc(case, counters, attempt=0):
     sample = dict(kind="peer-acc", api=api, ds=case.get("ds"), rsp=case.get("rsp"), results=outcome["results"], raised=outcome["raised"],
                   echo_ok=echo_ok, peer_events=rec["events"][:8], peer_error=rec.get("error"),
                   wire=[(s["name"], s["mid"], s["cdst"], s["cfrags"], s["dfrags"], s["dlen"]) for s in msgs][:8])
+    if blocked:
+        sample["blocked"] = blocked
+        bump(counters, "user_thread_blocked")
+        return dict(viol=viol, inconclusive=(None if viol else "requestor user thread blocked > %.0f s at %r" % (WATCHDOG, blocked)),
+                    sample=sample, nontrivial=bool(viol), sigs=sigs)
     if rec.get("error"):
         return dict(viol=viol, inconclusive=rec["error"], sample=sample, nontrivial=False, sigs=sigs)
     if peer_rx != tx[:len(peer_rx)] or (len(peer_rx) != len(tx) and not viol):
